@@ -247,15 +247,17 @@ def check_c12(budget, seed):
                 ns_["_ok_value"] = guard_value
             return type(fresh_name("P"), (), ns_)()
 
-        pool = ["before_go", "on_go", "after_go", "on_enter_b", "on_exit_a", "after_transition", "before_transition"]
-        names_m = rng.sample(pool, rng.randint(0, 3))
+        # `do_it` / `prep` are EXPLICIT names (on="do_it", before="prep"): every provider of the name is called, whatever
+        # the others return (they are actions, not guards)
+        pool = ["before_go", "on_go", "after_go", "on_enter_b", "on_exit_a", "after_transition", "before_transition", "do_it", "prep"]
+        names_m = sorted(set(rng.sample(pool, rng.randint(0, 3))) | {"do_it", "prep"})  # the machine itself always provides the explicit names
         names_model = rng.sample(pool, rng.randint(0, 3))
         l1 = provider("L1", rng.sample(pool, rng.randint(0, 3)), rng.choice([None, True, False]))
         l2 = provider("L2", rng.sample(pool, rng.randint(0, 3)), rng.choice([None, True, False]))
         model = provider("model", names_model, rng.choice([None, True, False]))
         model.state = None
         ns_ = {"a": State(initial=True), "b": State()}
-        ns_["go"] = ns_["a"].to(ns_["b"], cond="ok")
+        ns_["go"] = ns_["a"].to(ns_["b"], cond="ok", on="do_it", before="prep")
         ns_["back"] = ns_["b"].to(ns_["a"])
         m_guard = rng.choice([None, True, False])
         for nm in names_m:
@@ -274,6 +276,10 @@ def check_c12(budget, seed):
         late = rng.random() < 0.5
         if not [v for (_, v) in (guards[:3] if late else guards) if v is not None]:
             continue  # `cond="ok"` needs at least one provider at construction
+        early = [("machine", names_m), ("model", names_model), ("L1", [k for k in pool if hasattr(l1, k)])] + (
+            [] if late else [("L2", [k for k in pool if hasattr(l2, k)])])
+        if not all(any(nm in names for _, names in early) for nm in ("do_it", "prep")):
+            continue  # an explicit action name needs at least one provider at construction too
         # a guard name provided by several objects must hold on ALL of them, late listeners included
         providers_guard = [v for (_, v) in guards if v is not None]
         cls = type(fresh_name("C"), (StateMachine,), ns_)
@@ -298,7 +304,7 @@ def check_c12(budget, seed):
             for tag, names in (("machine", names_m), ("model", names_model), ("L1", [k for k in pool if hasattr(l1, k)]),
                                ("L2", [k for k in pool if hasattr(l2, k)])):
                 for nm in names:
-                    if nm in ("before_go", "on_go", "after_go", "on_enter_b", "on_exit_a", "after_transition", "before_transition"):
+                    if nm in pool:
                         expect.add((tag, nm))
             got = [(t, nm) for (t, nm, _) in log if nm != "ok"]
             if set(got) != expect or len(got) != len(set(got)):
